@@ -68,7 +68,7 @@ def number_instr(draw):
 def cases(draw):
     xml = draw(gen_xml.documents(max_nodes=35, ids=False, astral=False, prolog_misc=draw(st.booleans()), min_children=draw(st.sampled_from([0, 1, 2]))))
     return {'xml': xml, 'instrs': [draw(number_instr()) for _ in range(draw(st.integers(1, 3)))],
-            'visit': draw(st.sampled_from(['//*', '//*', '//*|//text()', '//node()', '//processing-instruction()|//comment()', '//a|//b', '//*[not(*)]'])),
+            'visit': draw(st.sampled_from(['//*', '//*', '//*|//text()', '//node()', '//processing-instruction()|//comment()', '//a|//b', '//*[not(*)]', '//@*', '//*|//@*'])),
             'orders': draw(st.lists(st.sampled_from(['doc', 'rev', 'mix7', 'mix3']), min_size=2, max_size=3, unique=True))}
 
 
@@ -131,11 +131,16 @@ def number_list(ins, cur, doc):
         out = []
         for t in reversed(cands):   # document order = outermost first
             sibs = t.parent.children if t.parent is not None else [t]
-            if t.kind in ('attribute', 'namespace'):
-                raise Unjudged('attribute target')
+            if t.kind == 'namespace':
+                raise Unjudged('namespace target')
+            if t.kind == 'attribute':
+                out.append(1)    # an attribute has no siblings: "one plus the number of preceding siblings that match"
+                continue
             out.append(1 + sum(1 for s in sibs[:sibs.index(t)] if cnt(s)))
         return out
     # any
+    if cur.kind in ('attribute', 'namespace'):
+        raise Unjudged('level any on an attribute node')
     if cnt(doc.root):
         raise Unjudged('count pattern matches the root node')
     nodes = [n for n in doc.nodes(attrs=False) if n.order <= cur.order]
@@ -234,6 +239,8 @@ def esc(s):
 
 ORDER_KEYS = {'doc': ('$id', 'ascending'), 'rev': ('$id', 'descending'), 'mix7': ('($id * 7) mod 11', 'ascending'), 'mix3': ('($id * 3 + 1) mod 5', 'descending')}
 IDX = 'count(preceding::node()) + count(ancestor::node())'
+# unique label of a visited node: IDX, for attribute nodes the IDX of the element followed by '@' and the attribute's qualified name
+LABEL = "concat(count(preceding::node()) + count(ancestor::node()) - number(count(.|../@*) = count(../@*)), substring(concat('@', name()), 1, number(count(.|../@*) = count(../@*)) * 200))"
 
 
 def stylesheet(case):
@@ -243,7 +250,7 @@ def stylesheet(case):
         key, direction = ORDER_KEYS[o]
         parts.append('<xsl:for-each select="%s"><xsl:sort select="%s" data-type="number" order="%s"/><xsl:sort select="%s" data-type="number"/>'
                      % (esc(case['visit']), esc(key.replace('$id', '(' + IDX + ')')), direction, esc(IDX)))
-        parts.append('O%d N<xsl:value-of select="%s"/>=' % (oi, esc(IDX)))
+        parts.append('O%d N<xsl:value-of select="%s"/>=' % (oi, esc(LABEL)))
         for ins in case['instrs']:
             attrs = ''.join(' %s="%s"' % (k, esc(v)) for k, v in ins.items() if v is not None and not k.startswith('_'))
             parts.append('<xsl:number%s/>|' % attrs)
@@ -293,11 +300,17 @@ def _check(ctx, case, doc):
     out = (r.get('out') or b'').decode('utf-8')
     per_order = {}
     for line in out.split('\n'):
-        m = re.match(r'O(\d+) N(\d+)=(.*)$', line, re.S)
+        m = re.match(r'O(\d+) N([^=]+)=(.*)$', line, re.S)
         if m:
-            per_order.setdefault(int(m.group(1)), {})[int(m.group(2))] = m.group(3).split('|')[:-1]
+            per_order.setdefault(int(m.group(1)), {})[m.group(2)] = m.group(3).split('|')[:-1]
     base = per_order.get(0, {})
-    idx = {n.order: i for i, n in enumerate(nodes)}
+    pos = {n.order: i for i, n in enumerate(nodes)}
+
+    def label(n):
+        if n.kind == 'attribute':
+            return '%d@%s' % (pos[n.parent.order], n.qname)
+        return '%d' % pos[n.order]
+    idx = {n.order: label(n) for n in visited}
     for oi in range(1, len(case['orders'])):
         if per_order.get(oi, {}) != base:
             diff = [k for k in base if per_order.get(oi, {}).get(k) != base[k]][:3]
